@@ -65,16 +65,26 @@ def relations(rng, tier, rpt):
             b2 = cls.FromExtendedKey(x, coin)
             if b2.PrivateKey().ToExtended() != x or b2.PublicKey().ToExtended() != b.PublicKey().ToExtended():
                 rep("extended key does not round-trip under the coin's version bytes", "%s.%s" % (r["family"], r["member"]), b2.PrivateKey().ToExtended(), x)
-            w = b.PrivateKey().ToWif()
-            if w:
-                k, _ = WifDecoder.Decode(w, conf.WifNetVersion())
-                if k != b.PrivateKey().Raw().ToBytes():
-                    rep("WIF does not round-trip under the coin's version byte", "%s.%s" % (r["family"], r["member"]), k.hex(), b.PrivateKey().Raw().ToHex())
+            from bip_utils import WifPubKeyModes, WifEncoder
+            pk = b.PrivateKey()
+            modes = [None, WifPubKeyModes.UNCOMPRESSED, WifPubKeyModes.COMPRESSED]
+            if n % 2:
+                modes.reverse()
+            for md in modes:      # both modes from one key object, in both orders
+                w = pk.ToWif() if md is None else pk.ToWif(md)
+                if not w:
+                    continue
+                want_mode = WifPubKeyModes.COMPRESSED if md is None else md
+                k, gm = WifDecoder.Decode(w, conf.WifNetVersion())
+                ref = WifEncoder.Encode(pk.Raw().ToBytes(), conf.WifNetVersion(), want_mode)
+                if k != pk.Raw().ToBytes() or gm != want_mode or w != ref:
+                    rep("WIF does not round-trip (key, compression mode) under the coin's version byte", "%s.%s mode=%s" % (r["family"], r["member"], want_mode),
+                        "%s %s %s" % (w, k.hex(), gm), "%s %s %s" % (ref, pk.Raw().ToHex(), want_mode))
     rpt.extra["impl_end_to_end_checks"] = n
     return bad[:8]
 
 
-def search_broken(broken, rng):
+def search_broken(broken, rng, fields=None):
     """a table theorem failed: localise (member, field) against the pinned registry and exhibit a seed on which an observable
     (address, extended keys, WIF, derived key) differs from the one obtained with the registered constants."""
     from gen.gen_coins import rows, ADDR_FMT
@@ -94,6 +104,8 @@ def search_broken(broken, rng):
                     "entry_point": "%sConfGetter.GetConfig" % g["family"]}
         gp = [tuple(p) for p in g["addrParams"]]
         diffs = [f for f in g if f != "addrParams" and g[f] != c[f]] + (["addrParams"] if gp != [tuple(p) for p in c["addrParams"]] else [])
+        if fields is not None:
+            diffs = [f for f in diffs if f in fields]
         if not diffs:
             continue
         cls, en, getter = FAM[g["family"]]
